@@ -1,5 +1,6 @@
 // clocks driver: SystemClock (C13) and SystemClockLoop (C14) under an injected millis().
 #include "vcommon.h"
+#include <unistd.h>
 #include <AceTime.h>
 #include <ace_time/testing/FakeClock.h>
 
@@ -9,11 +10,26 @@ using namespace verif;
 
 static uint64_t g_true_ms = 0;            // true elapsed time, never wraps
 static uint32_t g_base = 0;               // counter value at true time 0
-static inline uint32_t counter_now() { return (uint32_t) (g_base + g_true_ms); }
+// Logical step bound ("no operation hangs" decided on steps, not on wall time): the library reads the counter through
+// clockMillis(); a million reads while the injected time stands still means the operation in progress is not going to return
+// (SystemClock::getNow() documents at most 65 iterations per call).
+static const char* g_hang_key = "c13:operation-does-not-terminate";
+static uint64_t g_reads_at_one_ms = 0, g_last_read_ms = ~0ULL, g_max_reads_at_one_ms = 0;
+static void hang_detected();
+static inline void note_counter_read() {
+  if (g_true_ms == g_last_read_ms) { if (++g_reads_at_one_ms > 1000000ULL) hang_detected(); if (g_reads_at_one_ms > g_max_reads_at_one_ms) g_max_reads_at_one_ms = g_reads_at_one_ms; }
+  else { g_last_read_ms = g_true_ms; g_reads_at_one_ms = 0; }
+}
+static inline uint32_t counter_now() { note_counter_read(); return (uint32_t) (g_base + g_true_ms); }
 // C14: SystemClockLoop does its arithmetic in `unsigned long`, so its counter wraps at ULONG_MAX (2^32 on the
 // target boards, 2^64 on this host): the loop driver uses a full-width base, the shadow SystemClock the low bits.
 static unsigned long g_base_ul = 0;
-static inline unsigned long counter_now_ul() { return g_base_ul + (unsigned long) g_true_ms; }
+static inline unsigned long counter_now_ul() { note_counter_read(); return g_base_ul + (unsigned long) g_true_ms; }
+static void hang_detected() {
+  J j; j.num("true_ms", (long long) g_true_ms).num("counter32", (long long) (uint32_t) (g_base + g_true_ms)).num("counter_ul", (unsigned long long) (g_base_ul + (unsigned long) g_true_ms)).num("counter_reads_without_time_advancing", (long long) g_reads_at_one_ms);
+  witness(g_hang_key, "a clock operation read the millisecond counter a million times while time stood still: it does not terminate", j);
+  CNT.flush(); fflush(stdout); _exit(0);
+}
 
 static const acetime_t kInv = Clock::kInvalidSeconds;
 
@@ -560,6 +576,46 @@ static void c14_random(int shard, long long seed, long long walks, int len) {
   }
 }
 
+// --------------------------------------------------------------------------- C09 (clock operations under any call history)
+// SystemClock / SystemClockLoop driven from arbitrary counter values (not only a counter that starts at 0) with hostile
+// histories: any order of setNow / getNow / loop / forceSync / setup, any advance of time between them, reference and backup
+// clocks that answer anything. Watched by the step bound above and by ASan/UBSan. Values stay far from the int32 ends (the
+// arithmetic there is C13's and C05's subject).
+static void c09_clock(int shard, long long seed, long long rounds) {
+  g_hang_key = "c09:clock-operation-does-not-terminate";
+  Rng rng(seed * 31 + shard + 11);
+  static const unsigned long bases[] = {0UL, 1UL, 30000UL, 65535UL, 65536UL, 66536UL, 70000UL, 3600000UL, 2592000000UL, 0x7FFFFFF0UL, 0xFFFF0000UL, 0xFFFFFFFFUL - 70000UL, 0UL - 70000UL, 0UL - 1UL};
+  static const uint32_t advs[] = {0, 1, 999, 1000, 1001, 1500, 32767, 32768, 60000, 64536, 65535, 65536, 65537, 70000, 131072, 3600000, 86400000, 0x7fffffffu, 0xffffffffu};
+  for (long long r = 0; r < rounds; r++) {
+    g_base_ul = bases[rng.below(sizeof(bases) / sizeof(bases[0]))] + rng.below(3); g_base = (uint32_t) g_base_ul; g_true_ms = 0;
+    LogClock ref, bak;
+    int wiring = (int) rng.below(4);
+    Clock* rp = wiring == 3 ? nullptr : &ref; Clock* bp = wiring == 0 ? &ref : (wiring == 2 ? nullptr : &bak);
+    TLoop loop(rp, bp, (uint16_t) (1 + rng.below(3600)), (uint16_t) (1 + rng.below(10)), (uint16_t) rng.below(3000));
+    TClock plain(rp, bp);
+    int ops = 5 + (int) rng.below(40);
+    for (int o = 0; o < ops; o++) {
+      g_true_ms += (rng.below(3) == 0) ? advs[rng.below(sizeof(advs) / sizeof(advs[0]))] : rng.below(70000);
+      acetime_t val = rng.below(8) == 0 ? kInv : (acetime_t) rng.range(-1000000000LL, 1000000000LL);
+      ref.now = rng.below(6) == 0 ? kInv : (acetime_t) rng.range(-1000000000LL, 1000000000LL); ref.response = ref.now; ref.ready = rng.below(2);
+      bak.now = rng.below(6) == 0 ? kInv : (acetime_t) rng.range(-1000000000LL, 1000000000LL);
+      SystemClock* c = rng.below(2) ? (SystemClock*) &loop : (SystemClock*) &plain;
+      switch (rng.below(7)) {
+        case 0: c->setNow(val); CNT.add("c09.clock.setNow"); break;
+        case 1: case 2: { acetime_t v = c->getNow(); (void) v; CNT.add("c09.clock.getNow"); break; }
+        case 3: case 4: loop.loop(); CNT.add("c09.clock.loop"); break;
+        case 5: c->forceSync(); CNT.add("c09.clock.forceSync"); break;
+        case 6: c->setup(); CNT.add("c09.clock.setup"); break;
+      }
+      (void) c->isInit(); (void) c->getLastSyncTime();
+      if (g_base_ul + (unsigned long) g_true_ms >= 65536UL) CNT.add("c09.clock.ops_with_counter_beyond_16_bits");
+    }
+    CNT.add("c09.clock.histories");
+  }
+  CNT.add("c09.clock.max_counter_reads_in_one_operation", 0);
+  { J j; j.str("kind", "clock-histories").num("max_counter_reads_while_time_stood_still", (long long) g_max_reads_at_one_ms); sample(j); }
+}
+
 static void emit_cov() {
   std::vector<std::string> s, e;
   for (auto& kv : g_states) s.push_back(kv.first);
@@ -570,10 +626,12 @@ static void emit_cov() {
 int main(int argc, char** argv) {
   Args a(argc, argv);
   std::string mode = a.get("mode");
+  if (mode.substr(0, 3) == "c14") g_hang_key = "c14:operation-does-not-terminate";
   if (mode == "c13pairs") c13_pairs(a.shard(), a.nshards(), a.has("allgaps"));
   else if (mode == "c13sched") { c13_schedules(a.shard(), a.num("seed", 0), a.num("steps", 100000)); c13_loop_pollers(a.shard(), a.num("seed", 0), a.num("steps", 100000) / 200 + 50); }
   else if (mode == "c14enum") { c14_enum(a.shard(), a.nshards(), (int) a.num("depth", 5)); emit_cov(); }
   else if (mode == "c14random") { c14_random(a.shard(), a.num("seed", 0), a.num("walks", 100), (int) a.num("len", 2000)); emit_cov(); }
+  else if (mode == "c09clock") c09_clock(a.shard(), a.num("seed", 0), a.num("rounds", 20000));
   else { fprintf(stderr, "unknown mode\n"); return 3; }
   CNT.flush();
   return 0;
